@@ -160,6 +160,11 @@ class NilPair:
 
 
 @dataclass
+class Ping:
+    """a model WITHOUT fields (an empty element): known by its name only"""
+
+
+@dataclass
 class Town:
     """a STRING forward reference, resolved in this module: Street below"""
     streets: List["Street"] = field(default_factory=list, metadata={"type": "Element"})
@@ -339,6 +344,10 @@ def api_ops():
         "decNilPlain": lambda sh: sh.jp.from_string('{"vals": [null, 3]}', m.NilPair),
         "decNilTokens": lambda sh: sh.jp.from_string('{"vals": [[], ["a"]]}', m.NilPair),
         "parseUnion": lambda sh: sh.xp.from_string("<UHolder><u><bark>3</bark></u></UHolder>", m.UHolder),
+        # a name looked up AFTER the scans by field names above (decNoClass...): a model without fields stays known
+        "parsePingNoClass": lambda sh: _name_and_value(sh.xp.from_string("<Ping/>")),
+        "decNoClassAgain": lambda sh: _name_and_value(sh.jp.from_string('{"z": "k"}')),
+        "parsePingNoClass2": lambda sh: _name_and_value(sh.xp.from_string("<Ping/>")),
     }
 
 
